@@ -84,7 +84,10 @@ BadEncodings ==
   \cup {<<t, <<0, 1, 0>> \o k>> : t \in {64, 65},                                \* SVCB keys not strictly increasing
          k \in {<<0, 3, 0, 0, 0, 3, 0, 0>>, <<0, 3, 0, 0, 0, 1, 0, 0>>, <<255, 255, 0, 0, 0, 0, 0, 0>>}}
   \cup {<<47, <<0>> \o w>> :                                                      \* NSEC windows not strictly increasing
-         w \in {<<1, 1, 64, 1, 1, 64>>, <<1, 1, 64, 0, 1, 64>>, <<255, 1, 1, 0, 1, 1>>}}
+         w \in {<<1, 1, 64, 1, 1, 64>>, <<1, 1, 64, 0, 1, 64>>, <<255, 1, 1, 0, 1, 1>>,
+                \* three windows: every window is compared with its predecessor, not with the first or the largest
+                <<0, 1, 64, 2, 1, 64, 1, 1, 64>>, <<0, 1, 64, 1, 1, 64, 1, 1, 64>>, <<0, 1, 64, 2, 1, 64, 2, 1, 64>>,
+                <<1, 1, 64, 2, 1, 64, 0, 1, 64>>, <<0, 1, 64, 3, 1, 64, 2, 1, 64, 4, 1, 64>>}}
   \cup {<<13, <<5, 97>>>>, <<13, <<1, 97, 9, 98>>>>, <<16, <<2, 97>>>>, <<16, <<1, 97, 255>>>>,   \* string length overrun
         <<257, <<0, 9, 97>>>>, <<35, <<0, 1, 0, 1, 1, 97, 7, 98>>>>,
         <<41, <<0, 1, 0, 9, 1>>>>, <<41, <<0, 1, 0>>>>,                            \* option length overrun
